@@ -148,6 +148,36 @@ class Ctx:
             self.ob(rule, B.name, 'every loop iteration passes %s' % (gname or gpred), nb not in r,
                     at=B.blocks[nb].term.span)
 
+    def cmp_stmts(self, body):
+        """[(bid, idx, op, a, b, stmt)] for primitive comparisons `_x = Eq|Ne|Lt|Le|Gt|Ge(a, b)`."""
+        out = []
+        for bid, blk in body.blocks.items():
+            if blk.cleanup:
+                continue
+            for i, s in enumerate(blk.stmts):
+                if s.kind != 'assign':
+                    continue
+                m = re.match(r'^(Eq|Ne|Lt|Le|Gt|Ge)\((.*), (.*)\)$', s.rhs.strip())
+                if m and re.fullmatch(r'_\d+', s.lhs.strip()):
+                    out.append((bid, i, m.group(1), m.group(2).strip(), m.group(3).strip(), s))
+        return out
+
+    def stmt_guard(self, rule, F, sites, accept, sinks, unconditional=True, gname='comparison', min_guards=1):
+        """P2 with a primitive comparison statement as the guard.  sites: [(bid, idx, ...)] from cmp_stmts."""
+        if len(sites) < min_guards:
+            raise Inconclusive('ANCHOR-MISSING: %s in %s: %d comparison(s) %s (floor %d)' % (rule, F.name, len(sites), gname, min_guards))
+        gf = GuardFlow(F, self.prog.cfg(F))
+        allok = True
+        for gi, site in enumerate(sites):
+            bid, idx = site[0], site[1]
+            st = F.blocks[bid].stmts[idx]
+            for (sb, sspan, slabel) in sinks:
+                ok, det = gf.check_sink((bid, idx), accept, sb, unconditional)
+                tag = '' if len(sites) == 1 else '#%d' % gi
+                allok &= self.ob(rule, F.name, 'guard %s%s=%s before %s' % (gname, tag, accept, slabel), ok,
+                                 at=st.span, sink_at=atxt(sspan), unconditional=unconditional, **det)
+        return allok
+
     def only_callers(self, rule, sink, allowed, minimum=1):
         """P1: every function mentioning `sink` is in `allowed`."""
         if not self.prog.has(sink):
